@@ -365,8 +365,11 @@ impl M {
                 // Elide action on encrypted/compressed element: becomes elided (only digest can remain)
                 (_, Obsc::Elided) => self.with_obsc(Obsc::Elided),
                 (Obsc::Compressed, Obsc::Compressed) => self.clone(),
-                // Encrypt action encrypts whatever is there, obscured or not
-                (_, Obsc::Encrypted(k)) => self.hide_under(Obsc::Encrypted(k)),
+                // Encrypt action on a compressed element: compression is not concealment, so the content
+                // must end up as ciphertext
+                (Obsc::Compressed, Obsc::Encrypted(k)) => self.hide_under(Obsc::Encrypted(k)),
+                // on an element that is already elided or encrypted nothing is left to conceal: the
+                // properties only fix "stays obscured, same digest"
                 _ => self.with_obsc(Obsc::Some),
             };
         }
